@@ -208,6 +208,41 @@ func (e *Eng) evalSpec(st *State, x *SExpr, env map[string]*Val, old map[string]
 					}
 				}
 				return scalar(strconv.FormatBool(here), "Bool", nil)
+			case "declaredInEnclosingLoop":
+				// declaredInEnclosingLoop(v): the variable named v visible here is declared inside the body of SOME loop
+				// that encloses this point (not necessarily the innermost): the iterations of that loop do not share it
+				in := false
+				if len(x.Args) > 1 && x.Args[1].Name != "" {
+					var best types.Object
+					for o := range st.vars {
+						if o.Name() != x.Args[1].Name {
+							continue
+						}
+						if best == nil || e.prefer(o, best) {
+							best = o
+						}
+					}
+					ast.Inspect(e.fnBody(), func(n ast.Node) bool {
+						if n == nil {
+							return false
+						}
+						if n.Pos() > e.curPos || n.End() <= e.curPos {
+							return n.Pos() <= e.curPos
+						}
+						var body *ast.BlockStmt
+						switch l := n.(type) {
+						case *ast.ForStmt:
+							body = l.Body
+						case *ast.RangeStmt:
+							body = l.Body
+						}
+						if body != nil && best != nil && body.Pos() <= e.curPos && e.curPos < body.End() && best.Pos() >= body.Pos() && best.Pos() < body.End() {
+							in = true
+						}
+						return true
+					})
+				}
+				return scalar(strconv.FormatBool(in), "Bool", nil)
 			case "freshPerIteration":
 				// freshPerIteration(v): the variable named v visible here is declared inside the body of the innermost
 				// loop that encloses this point, i.e. every iteration has its own instance (its address may be handed
